@@ -1,0 +1,31 @@
+//go:build badger && verif
+// +build badger,verif
+
+package badger
+
+import (
+	"github.com/dgraph-io/badger/v3"
+
+	"github.com/janelia-flyem/dvid/dvid/verifhook"
+)
+
+// verifDB is the handle a BadgerDB keeps on the underlying database.  Built with the tag "verif"
+// it wraps badger's DB so that every read-write transaction issued by this package -- whichever
+// function issues it -- passes two yield points: "storage.badger.txn.begin" before db.Update
+// starts and "storage.badger.txn.done" after it has returned (committed or failed).  A
+// verification harness installs a callback with verifhook.Set to count transactions and to stop
+// the process between two of them.  Everything else (View, NewWriteBatch, Sync, Close ...) is
+// badger's, through the embedded pointer.
+type verifDB struct {
+	*badger.DB
+}
+
+func wrapVerifDB(bdp *badger.DB) *verifDB { return &verifDB{bdp} }
+
+// Update runs one read-write transaction between the two yield points.
+func (d *verifDB) Update(fn func(txn *badger.Txn) error) error {
+	verifhook.Yield("storage.badger.txn.begin")
+	err := d.DB.Update(fn)
+	verifhook.Yield("storage.badger.txn.done")
+	return err
+}
